@@ -398,7 +398,50 @@ def replay_one(c, path):
     return p_judge(c, run, final=not run.enabled()), run.project()
 
 
+def log_self_test(chk):
+    """the log judge has teeth: a real log is accepted; with one event dropped (of each kind), a spy closed twice or two receipts swapped
+    it is rejected (demonstrates the binding; a failure here is a machinery error, not a verdict)"""
+    import copy
+    c = [x for x in base_configs() if x["name"] == "multi"][0]
+    with Tracer() as tr:
+        run = PoRun(c)
+        while run.enabled():
+            run.step(run.enabled()[0])
+    good = tr.observations(True)[0]
+    muts = []
+    for kind in "paxsc":
+        m = copy.deepcopy(good)
+        idx = [j for j, e in enumerate(m["ev"]) if e["k"] == kind]
+        del m["ev"][idx[min(1, len(idx) - 1)]]
+        muts.append(dict(obs=m, key="drop-" + kind))
+    m = copy.deepcopy(good)
+    m["ev"].append(dict(m["ev"][[j for j, e in enumerate(m["ev"]) if e["k"] == "c"][0]]))
+    muts.append(dict(obs=m, key="double-close"))
+    m = copy.deepcopy(good)
+    a = [j for j, e in enumerate(m["ev"]) if e["k"] == "a" and e["r"] == "G"]
+    m["ev"][a[0]]["n"], m["ev"][a[1]]["n"] = 1, 0
+    muts.append(dict(obs=m, key="swap"))
+
+    class Probe:
+        def __init__(self):
+            self.traces, self.extra, self.rejected, self.runs = 0, {}, [], []
+
+        def add_tlc(self, r, what):
+            self.runs.append((r, what))
+
+        def violation(self, sig, text, rp):
+            self.rejected.append(sig.split(":")[-1])
+    pr = Probe()
+    validate_observations(pr, [dict(obs=good, key="good")] + muts, "self-test of the log judge")
+    for r, what in pr.runs:
+        chk.add_tlc(r, what)
+    if sorted(pr.rejected) != sorted(x["key"] for x in muts):
+        raise V.MachineryError(f"PostOfficeObs self-test: rejected {pr.rejected}, expected exactly the corrupted logs")
+    chk.extra["postoffice_log_self_test"] = "1 real log accepted, 7 corrupted copies rejected"
+
+
 def run_part(chk, pid="C01"):
+    log_self_test(chk)
     quick = chk.tier == "quick"
     base = base_configs()
     confs = list(base)
@@ -429,3 +472,96 @@ def run_part(chk, pid="C01"):
                                    real_pulls=sum(r["steps"] for r in res), drift=drift[:5],
                                    guard="the exhaustion rule as found (a finishing multi-output producer exhausts its loader-fed siblings too) violates " + str(g2["violated"]) + " in the model")
     return drift
+
+
+# ----------------------------------------------------------------------------- traces of real single-thread runs (PostOfficeObs.tla)
+class Tracer:
+    """Records what every PostOffice created inside the `with` block does (harness-side wrappers, nothing in /repo): one event per
+    message produced / received by a reader / received by a spy, per exhaustion and per spy close - in program order."""
+
+    def __init__(self):
+        self.logs = []
+
+    def __enter__(self):
+        tr = self
+        P = PostOffice
+        self._orig = {k: getattr(P, k) for k in ("__init__", "_ack_msg_produced", "_ack_reader_recieved", "_ack_topic_exhausted", "register_spy",
+                                                 "get_iter", "kill_spies")}
+        orig = self._orig
+
+        def init(po, *a, **k):
+            po._vlog = dict(ev=[], readers=[], spies=[], killed=False)
+            tr.logs.append(po._vlog)
+            orig["__init__"](po, *a, **k)
+
+        def prod(po, msg, topic):
+            orig_len = po._last_msg_produced[topic]
+            po._vlog["ev"].append(dict(k="p", t=topic, r="", n=orig_len + 1))
+            orig["_ack_msg_produced"](po, msg, topic)
+
+        def ack(po, reader, topic, msg_number):
+            orig["_ack_reader_recieved"](po, reader, topic, msg_number)
+            po._vlog["ev"].append(dict(k="a", t=topic, r=reader, n=msg_number))
+
+        def exh(po, topic):
+            po._vlog["ev"].append(dict(k="x", t=topic, r="", n=0))
+            orig["_ack_topic_exhausted"](po, topic)
+
+        def reg_spy(po, spy, topic):
+            i = sum(1 for s in po._vlog["spies"] if s[0] == topic)
+            name = f"spy{i}"
+            po._vlog["spies"].append([topic, name])
+            cnt = dict(n=0)
+            o_recv, o_close = spy.receive, spy.close
+
+            def recv(msg):
+                po._vlog["ev"].append(dict(k="s", t=topic, r=name, n=cnt["n"]))
+                cnt["n"] += 1
+                return o_recv(msg)
+
+            def close():
+                po._vlog["ev"].append(dict(k="c", t=topic, r=name, n=0))
+                return o_close()
+            spy.receive, spy.close = recv, close
+            orig["register_spy"](po, spy, topic)
+
+        def get_iter(po, topic, reader):
+            po._vlog["readers"].append([topic, reader])
+            return orig["get_iter"](po, topic, reader)
+
+        def kill(po, reason=None):
+            po._vlog["killed"] = True
+            return orig["kill_spies"](po, reason)
+        P.__init__, P._ack_msg_produced, P._ack_reader_recieved, P._ack_topic_exhausted = init, prod, ack, exh
+        P.register_spy, P.get_iter, P.kill_spies = reg_spy, get_iter, kill
+        return self
+
+    def __exit__(self, *a):
+        for k, v in self._orig.items():
+            setattr(PostOffice, k, v)
+
+    def observations(self, completed):
+        return [dict(ev=lg["ev"], readers=lg["readers"], spies=lg["spies"], completed=bool(completed) and not lg["killed"]) for lg in self.logs
+                if lg["readers"]]
+
+
+def validate_observations(chk, obs, what, pid="C01"):
+    """TLC judges every recorded office log against the P-level of PostOffice.tla, restated over logs (spec/PostOfficeObs.tla)."""
+    import json
+    if not obs:
+        return
+    d = V.stage_spec(["PostOfficeObs"], {"PostOfficeObs.cfg": "SPECIFICATION Spec\nINVARIANT Accepted\nCHECK_DEADLOCK FALSE\n"})
+    with open(os.path.join(d, "obs.json"), "w") as f:
+        json.dump([o["obs"] for o in obs], f)
+    r = V.run_tlc(d, "PostOfficeObs", workers=4, timeout=1800, env={"TRACE_FILE": os.path.join(d, "obs.json")}, args=["-continue"])
+    chk.add_tlc(r, f"P-level of PostOffice.tla on {len(obs)} office logs recorded from real single-thread runs ({what})")
+    if not (r.ok or r.violated):
+        raise V.MachineryError("PostOfficeObs failed: " + r.out[-2000:])
+    for k in sorted({int(m.group(1)) for m in re.finditer(r"\btid = (\d+)", r.out)}):
+        o = obs[k - 1]
+        chk.violation(f"{pid}:postoffice-log:{o['key']}", f"single-thread run {o['key']}: the recorded PostOffice log violates the P-level of PostOffice.tla "
+                      f"(every reader / spy gets every message of its topic once, in order; exhausted and closed once): {json.dumps(o['obs'])[:1500]}",
+                      o.get("replay", {}))
+    chk.traces += len(obs)
+    chk.extra.setdefault("postoffice_logs_validated", 0)
+    chk.extra["postoffice_logs_validated"] += len(obs)
